@@ -175,8 +175,13 @@ class AccountingEngine:
         new_taxable_event_amount: RP2Decimal = new_taxable_event.crypto_balance_change
 
         # If the new taxable event is newer than the old one (and it's not earn-typed) check if there is a newer acquired lot that
-        # meets the accounting method criteria (but it's still older than the new taxable event).
-        if taxable_event and taxable_event.timestamp < new_taxable_event.timestamp:
+        # meets the accounting method criteria (but it's still older than the new taxable event). The same is needed if the two events
+        # occur at the same instant but fall under different accounting methods (this can happen only at a year boundary, if their
+        # timestamps have different time zones): the current lot was selected with the criteria of the old event's method.
+        if taxable_event and (
+            taxable_event.timestamp < new_taxable_event.timestamp
+            or self._get_accounting_method(taxable_event.timestamp.year) is not self._get_accounting_method(new_taxable_event.timestamp.year)
+        ):
             if acquired_lot:
                 self._set_partial_amount(acquired_lot, new_acquired_lot_amount)
             (_, new_acquired_lot, _, new_acquired_lot_amount) = self.get_acquired_lot_for_taxable_event(
